@@ -226,6 +226,21 @@ var c11Injectors = []c11Injector{
 		}
 		return true
 	}},
+	{"identity-cycle-with-identities-derived-from-its-members", true, func(r *core.Rng, ms *yang.ModSet) bool {
+		// a cycle of two or three identities, and identities that are derived from a member without being on the cycle
+		m := modA(ms)
+		if r.Bool() {
+			addBody(m, yang.S("identity", "cyi1", yang.S("base", "cyi2")), yang.S("identity", "cyi2", yang.S("base", "cyi1")))
+		} else {
+			addBody(m, yang.S("identity", "cyi1", yang.S("base", "cyi2")), yang.S("identity", "cyi2", yang.S("base", "cyi3")), yang.S("identity", "cyi3", yang.S("base", "cyi1")))
+		}
+		addBody(m, yang.S("identity", "cy-tail1", yang.S("base", "cyi1")), yang.S("identity", "cy-tail2", yang.S("base", "cy-tail1")), yang.S("identity", "cy-tail3", yang.S("base", "cyi2")),
+			yang.S("identity", "a-first", yang.S("base", "cy-tail2")), yang.S("identity", "z-last", yang.S("base", "cy-tail3")))
+		if r.Bool() {
+			addBody(m, yang.S("container", "cy-idref", yang.S("leaf", "i", yang.S("type", "identityref", yang.S("base", "cy-tail2")))))
+		}
+		return true
+	}},
 	{"identity-self", true, func(r *core.Rng, ms *yang.ModSet) bool {
 		addBody(modA(ms), yang.S("identity", "cyi", yang.S("base", "cyi")))
 		return true
